@@ -15,7 +15,7 @@ from simkit.core import Violation
 from simkit.opmachine import OpMachine, World
 
 NAMES = ["n%d" % i for i in range(6)]
-OFFSETS = [0x10, 0x20, 0x30, 0x40, 0x50, 0x60]
+OFFSETS = [0, 0x10, 0x20, 0xFFFFFFFF, 0x50, 1]
 
 
 class DBW(object):
